@@ -27,7 +27,7 @@ TwoTo31 == FromDigits(<<2, 1, 4, 7, 4, 8, 3, 6, 4, 8>>)
 Dt(dn, sod, ns, off) == DtV(Inst(dn, sod, ns), off)
 Tm(sod, ns, off) == TimeV([sod |-> sod, ns |-> ns], off)
 
-KeyDays == {MinDn, MinDn + 1, -366, -1, 0, 1, 59, UnixEpochDn, Ymd2Dn(2000, 2, 29), Ymd2Dn(2022, 5, 2),
+KeyDays == {MinDn, MinDn + 1, -366, -1, 0, 1, 59, UnixEpochDn - 1, UnixEpochDn, Ymd2Dn(2000, 2, 29), Ymd2Dn(2022, 5, 2),
             Ymd2Dn(-5, 2, 29), MaxDn - 1, MaxDn}
 KeyTods == {<<0, 0>>, <<0, 1>>, <<43199, 999999999>>, <<43200, 0>>, <<86399, 0>>, <<86399, 999999999>>, <<45296, 123456789>>}
 KeyOffs == {0, 1, -1, 3600, -3600, 19800, -12600, 86399, -86399}
@@ -54,6 +54,10 @@ EdgeCounts(i, u, sign) ==
 (***************************************************************************)
 C04(z) ==
   LET dts == {Dt(d, t[1], t[2], 0) : d \in KeyDays, t \in KeyTods} \cup {Dt(0, 0, 0, 3600), Dt(-1, 86399, 999999999, -3600)}
+             \* values carrying an offset on the last / first days: the instant of the result may be representable while
+             \* its local reading is not (and the last two receivers are such values themselves)
+             \cup {Dt(MaxDn - 1, 82800, 0, 7200), Dt(MaxDn, 3600, 5, 7200), Dt(MinDn + 1, 3600, 0, -7200), Dt(MinDn, 82800, 5, -7200),
+                   Dt(MaxDn, 82800, 0, 7200), Dt(MinDn, 3600, 0, -7200)}
   IN UNION {
       {Case([op |-> op, u |-> u, n |-> n], a, a) :
           n \in KeyCounts \cup WrapCounts(u) \cup EdgeCounts(InstOf(a), u, IF op = "dt_add" THEN 1 ELSE -1)} :
@@ -138,6 +142,15 @@ C08(z) ==
      \cup {Case([op |-> "time_from_seconds", s |-> s], DateV(0), DateV(0)) : s \in {W(0), W(1), W(86399), W(86400), W(86401), TwoTo31, U32Max}}
      \cup {Case([op |-> "time_from_nanos", n |-> n], DateV(0), DateV(0)) :
              n \in NanosProbes}
+     \* every way of obtaining a Time: setters, clears and offset changes too (their result is a time of day in
+     \* [0, 24 h) and equal to the canonical value); local readings that land exactly on UTC midnight included
+     \cup UNION {{Case([op |-> "time_set", f |-> f, v |-> v], Tm(t[1], t[2], o), Tm(0, 0, 0)) :
+                    v \in {W(0), W(1), W(5), W(ClockMax(f))}} :
+                   t \in KeyTods \cup {<<2096, 0>>, <<7200, 0>>}, o \in {0, 3600, -3600, 19800, 86399, -86399}, f \in ClockFields}
+     \cup {Case([op |-> "time_clear", f |-> f], Tm(t[1], t[2], o), Tm(0, 0, 0)) :
+             t \in KeyTods \cup {<<2096, 0>>, <<7200, 0>>}, o \in {0, 3600, -3600, 19800, 86399, -86399}, f \in ClockFields}
+     \cup {Case([op |-> op, o |-> o], Tm(t[1], t[2], p), Tm(0, 0, 0)) : op \in {"time_set_offset", "time_as_offset"},
+             t \in KeyTods \cup {<<3600, 0>>, <<82800, 0>>}, o \in {0, 3600, -3600, 19800, 86399, -86399}, p \in {0, 3600}}
      \cup {Case([op |-> "time_from_hms", h |-> W(h), mi |-> W(m), s |-> W(s)], DateV(0), DateV(0)) :
              h \in {0, 1, 23, 24}, m \in {0, 59, 60}, s \in {0, 59, 60}}
      \cup {Case([op |-> "time_cmp"], Tm(a[1], a[2], 0), Tm(b[1], b[2], 3600)) : a \in KeyTods, b \in KeyTods}
@@ -175,14 +188,16 @@ C01(z) ==
   LET vals == OffVals(LocalDates, CalTods, CalOffs)
   IN UNION {{Case([op |-> "dt_set", f |-> f, v |-> v], a, a) : v \in SetValues(f)} : a \in vals, f \in {"year", "month", "day"}}
      \cup {Case([op |-> "dt_get"], a, a) : a \in vals}
-     \cup {Case([op |-> "dt_as_ymdhms"], a, a) : a \in vals \cup {Dt(d, t[1], t[2], 0) : d \in {-1, -366, -146097, 0, 1, Ymd2Dn(-401, 2, 29)}, t \in CalTods}}
+     \cup {Case([op |-> "dt_as_ymdhms"], a, a) : a \in vals \cup {Dt(d, t[1], t[2], 0) : d \in {-1, -366, -146097, 0, 1, Ymd2Dn(-401, 2, 29), UnixEpochDn - 1, UnixEpochDn, UnixEpochDn + 1, MinDn, MaxDn}, t \in CalTods}}
 C02(z) ==
   LET vals == OffVals(YearEdgeDates \cup {<<2024, 2, 29>>, <<2023, 2, 28>>}, CalTods, CalOffs)
   IN {Case([op |-> "dt_set", f |-> "doy", v |-> v], a, a) : a \in vals, v \in SetValues("doy")}
      \cup {Case([op |-> "dt_get"], a, a) : a \in vals}
 \* receivers on the first / last representable day whose offset lets a setter push the instant out of the range
 EdgeVals == {Dt(MaxDn, 79200, 0, -82800), Dt(MaxDn, 80000, 5, -3600), Dt(MaxDn, 86399, 999999999, -1), Dt(MaxDn - 1, 80000, 0, -3600),
-             Dt(MinDn, 0, 0, 86399), Dt(MinDn, 100, 0, 3600), Dt(MinDn, 0, 0, 1), Dt(MinDn + 1, 100, 0, 3600)}
+             Dt(MinDn, 0, 0, 86399), Dt(MinDn, 100, 0, 3600), Dt(MinDn, 0, 0, 1), Dt(MinDn + 1, 100, 0, 3600),
+             \* receivers whose own local reading is outside the range (results of add_hours / set_time on the last / first day)
+             Dt(MaxDn, 82800, 0, 7200), Dt(MaxDn, 86399, 999999999, 1), Dt(MinDn, 3600, 0, -7200), Dt(MinDn, 0, 0, -1)}
 EdgeSetValues(f) == SetValues(f) \cup (CASE f = "day" -> {W(11), W(12), W(13), W(22), W(23), W(24)}
                                           [] f = "month" -> {W(6), W(7), W(8)}
                                           [] f = "year" -> {W(5879610), W(-5879610)}
